@@ -2,7 +2,6 @@ package main
 
 func init() {
 	checks["C04"] = checkC04
-	checks["C05"] = checkC05
 }
 
 var opsC04 = []string{"Add", "AddWithCount", "AddBin", "AddRepeat", "Merge", "CopyTo", "Clear", "Reweight", "EncDec", "Proto", "Read"}
@@ -19,12 +18,14 @@ func checkC04(c *Ctx) {
 		c.runStoreMC(exact2, "OpsAll", "MCKeys", 6, "exact x exact")
 	}
 	// exhaustive tree, small alphabet
-	c.runStoreGen(&StoreGen{Kinds: exact2, Keys: []int{1, 3}, Q: 4, Weights: []int{6}, Factors: [][2]int{{3, 2}},
+	c.runStoreGen(&StoreGen{Kinds: exact2, Keys: []int{0, 2, 4}, Q: 4, Weights: []int{0, 6}, Factors: [][2]int{{3, 2}},
 		Repeats: []int{33}, Ops: opsC04, Depth: c.pick(3, 4)}, c.pick(6, 12), "exhaustive tree")
 	// long random histories, full alphabet
 	c.runStoreGen(&StoreGen{Kinds: exact2, Keys: []int{0, 1, 2, 3, 4}, Q: 4, Weights: []int{0, 1, 2, 4, 8, 12},
 		Factors: [][2]int{{1, 4}, {1, 2}, {2, 1}, {3, 1}}, Repeats: []int{33, 70}, Ops: opsC04, Depth: c.pick(16, 24),
 		Simulate: true, Num: c.pick(3000, 100000)}, c.pick(8, 16), "simulated long histories")
+	// direction B: recorded executions of the real stores validated by TLC
+	c.runStoreTraces(c.pick(24, 200), traceGenOpts{Events: c.pick(400, 2000), Kinds: []string{"dense", "sparse", "paged"},
+		Ops: []string{"Add", "Add", "AddWithCount", "AddWithCount", "AddBin", "AddRepeat", "Merge", "CopyTo", "Clear", "Reweight", "EncDec", "Proto", "Read"}}, "non-collapsing stores")
 }
 
-func checkC05(c *Ctx) {}
